@@ -26,7 +26,7 @@ contract(F, "Rule.shifts", props=["C10"], verify=False, source="AbstractRule.shi
          params={"self": Obj("Rule")}, returns=Seq(Int), ensures=["result == rule_shifts(self)"],
          modifies=["self._shifts"])
 
-contract(F, "ReverseRule.shifts", props=["C10"],
+contract(F, "ReverseRule.shifts", props=["C10", "C02"],
          params={"self": Obj("ReverseRule")}, returns=Seq(Int),
          requires=["0 <= self.idx", "self.idx < len(rule_shifts(self.original_rule))"],
          ensures=["len(result) == len(rule_shifts(self.original_rule))",
